@@ -493,11 +493,55 @@ def build_world(sched, cpu_count=2, psutil=True, environ=None):
     re_.cpu_count = ctxm.cpu_count
     w.pe, w.re, w.util, w.procm, w.sync, w.ctx = pe, re_, util, procm, sync, ctxm.ctx_loky
     _trace_containers(w)
+    S.annotate_kill = _make_kill_annotator(w)
     S.extra_state = lambda: tuple(
         (h["pending"].raw_len(), h["running"].raw_len(), h["processes"].raw_len(),
          h["flags"].shutdown, h["flags"].broken is not None, h["flags"].kill_workers)
         for h in w.execs)
     return w
+
+
+def _announce_ranges(pe):
+    """Line ranges of _process_worker that lie after an exit announcement
+    (result_queue.put(pid)) up to the return that follows it."""
+    import inspect
+    src, first = inspect.getsourcelines(pe._process_worker)
+    ann, ranges = [], []
+    for i, line in enumerate(src):
+        if "result_queue.put(pid)" in line:
+            ann.append(first + i)
+            for j in range(i + 1, len(src)):
+                if src[j].strip() == "return":
+                    ranges.append((first + i + 1, first + j))
+                    break
+    return ann, ranges
+
+
+def _make_kill_annotator(w):
+    ann, ranges = _announce_ranges(w.pe)
+    code_name = "_process_worker"
+
+    def annotate(proc):
+        phase = "not-started"
+        for t in proc.threads:
+            if not t.is_main or t.state == "done":
+                continue
+            fr = sys._current_frames().get(t.real.ident)
+            while fr is not None:
+                if fr.f_code.co_name == code_name and "/loky/" in fr.f_code.co_filename:
+                    ln = fr.f_lineno
+                    if ln in ann:
+                        phase = "announcing"
+                    elif any(a <= ln <= b for a, b in ranges):
+                        phase = "announced"
+                    else:
+                        phase = "working"
+                    break
+                fr = fr.f_back
+        proc.info["kill_phase"] = phase
+        execs = [(h["flags"].shutdown, h["flags"].broken is not None) for h in w.execs]
+        return dict(phase=phase, execs=execs, t=w.S.now)
+    return annotate
 
 
 def _trace_containers(w):
@@ -513,7 +557,10 @@ def _trace_containers(w):
                  ref=weakref.ref(self), max_workers=self._max_workers, mgr=None,
                  max_seen=self._max_workers, index=len(w.execs))
         w.execs.append(h)
-        return orig(self, *a, **k)
+        r = orig(self, *a, **k)
+        h["slot_ksem"] = self._call_queue._sem._semlock.k
+        h["queue_size"] = self._call_queue._maxsize
+        return r
     pe.ProcessPoolExecutor._setup_queues = _setup_queues
 
 
